@@ -302,6 +302,14 @@ class MergeFlow(Engine):
         self.root_op(st, 'setitem', parent, node_)
         if isinstance(idx, Ref):
             st.mon['setidx'] = (st.mon.get('setidx') or ()) + (idx.sym,)
+        if self.owner(parent, st) == 'COPY':
+            self.count('copy-mutation', st, node)
+            if isinstance(node_, Ref) and node_.kind == 'elem' and st.get(node_.sym).prov not in ('COPY',):
+                self.find_('PAYLOAD-PURE', st, node, f'{self.describe(parent, st)}[...] = {self.describe(node_, st)}',
+                           'an element that is not part of the copied payload is put into it (carried content replaced)')
+        if self.owner(parent, st) == 'RO' and (entry is None or entry.kind != 'fresh' or entry.delta != 0 or entry.parent != parent.sym):
+            self.find_('FRAME', st, node, f'{self.describe(parent, st)}[...] = ...',
+                       'a child is overwritten through a position that does not name the looked-up element: some other element is replaced')
         self.mark_mutation(st, node, 'setitem', parent)
         if entry is not None and entry.kind == 'fresh' and entry.anchor in st.heap:
             self.bump(st, Ref('elem', entry.anchor), -1)
@@ -312,6 +320,30 @@ class MergeFlow(Engine):
             f = st.frames[-1]
             self.find_('LIVE-ITER', st, f.callnode if f.callnode is not None else node, f'{op} while iterating {self.describe(parent, st)}',
                        'children are added to / removed from an element while its live child list is being iterated: the iteration skips or repeats siblings')
+
+    def on_slice_store(self, st, node, parent, slice, value):
+        self.mark_mutation(st, node, 'slice assignment', parent)
+        own = self.owner(parent, st)
+        if own == 'RO':
+            self.find_('FRAME', st, node, f'{self.describe(parent, st)}[{slice}] = ...',
+                       'a slice assignment replaces a whole range of existing children (as many as the slice is wide), not only the named element')
+            self.find_('IDX-FRESH', st, node, f'{self.describe(parent, st)}[{slice}] = ...',
+                       'children are replaced by a range of positions: elements that follow the named one are overwritten')
+        elif own == 'MSG':
+            self.find_('MSG-READONLY', st, node, f'{self.describe(parent, st)}[{slice}] = ...', 'the message tree is modified')
+
+    def on_comp_skip(self, st, node, gen):
+        """a comprehension filter rejects a carried (message / copied payload) element inside a merge"""
+        if not self.in_merge(st):
+            return
+        for n in ast.walk(gen.target):
+            if isinstance(n, ast.Name):
+                v = st.frame.env.get(n.id)
+                if isinstance(v, Ref) and v.kind == 'elem' and self.owner(v, st) in ('MSG', 'COPY') and st.get(v.sym).prov in ('MSG', 'COPY'):
+                    f = st.frame.func
+                    if f is not None and f.cls is not None and f.cls.qualname in self.merge_family:
+                        self.find_('PAYLOAD-ALL', st, node, 'filtered comprehension over ' + self.describe(v, st),
+                                   'a comprehension filter drops carried child elements before they are spliced / inserted')
 
     def on_remove_by_index(self, st, node, parent, idx, entry):
         self.mark_mutation(st, node, 'delete by index', parent)
